@@ -705,6 +705,50 @@ def members_of(p: Dict[str, Any], mi: int, pc: int) -> List[Tuple[str, int]]:
     return list(out.items())
 
 
+def has_import_cycle(p: Dict[str, Any]) -> bool:
+    """Static import graph of the project as Python executes it: module -> modules its import statements execute (every prefix
+       package of the target, the target, a sub-module named by `from pkg import sub`); imports under TYPE_CHECKING are not
+       executed by Python but ARE analysed by pydoctor, so they count as well.  True when the graph has a cycle."""
+    idx = module_index_by_qname(p)
+    n = len(p["mods"])
+    edges: Dict[int, set] = {i: set() for i in range(1, n + 1)}
+    def add(i: int, q: Optional[str]) -> None:
+        if not q:
+            return
+        parts = q.split(".")
+        for k in range(1, len(parts) + 1):
+            j = idx.get(".".join(parts[:k]))
+            if j and j != i:
+                edges[i].add(j)
+    for i, m in enumerate(p["mods"], 1):
+        # importing a module imports its parent packages first
+        par = m["par"]
+        if par:
+            edges[i].add(par)
+        for op in m["ops"]:
+            if op["k"] in ("from", "star"):
+                tq = resolve_import_target(p, i, op["lvl"], op["m"])
+                add(i, tq)
+                if op["k"] == "from" and tq:
+                    add(i, tq + "." + op["orig"])
+            elif op["k"] == "import":
+                add(i, ".".join(op["m"]))
+    # a module depends on its parent package only for being importable; the package's __init__ importing the module back is a cycle
+    # only if the module (transitively) needs something the package binds later - approximated conservatively: any cycle counts
+    color: Dict[int, int] = {}
+    def dfs(u: int) -> bool:
+        color[u] = 1
+        for v in edges[u]:
+            if v == p["mods"][u - 1]["par"]:
+                continue                     # the parent package is already being imported when its sub-module runs
+            c = color.get(v, 0)
+            if c == 1 or (c == 0 and dfs(v)):
+                return True
+        color[u] = 2
+        return False
+    return any(color.get(u, 0) == 0 and dfs(u) for u in range(1, n + 1))
+
+
 def import_chain_intermediates(p: Dict[str, Any], oi: int, name: str) -> int:
     """Number of modules between an importer of `name` from module oi and the module that defines the object (0: oi defines it)."""
     n = 0
